@@ -190,7 +190,7 @@ Proof.
     intros w x. rewrite A2, A1, in_app_iff.
     destruct (pfidx0 people rd i =? w) eqn:E.
     + apply Z.eqb_eq in E. split; intros; intuition auto.
-    + assert (pfidx0 people rd i <> w) by (intros ->; rewrite Z.eqb_refl in E; discriminate).
+    + assert (pfidx0 people rd i <> w) by (intros Hc; rewrite Hc, Z.eqb_refl in E; discriminate).
       simpl. split; intros; intuition auto.
 Qed.
 
@@ -268,9 +268,9 @@ Theorem couples_merge_index people merged r1 r2 m :
                  In x (pf_members (pfidx0 people (cr_people r1)) (fidx0 ftab (cr_files r1)) w (cr_pf r1) 0) \/
                  In x (pf_members (pfidx0 people (cr_people r2)) (fidx0 ftab (cr_files r2)) w (cr_pf r2) 0)).
 Proof.
-  unfold couples_merge. intros H. inv_bind H. destruct v as [ftab mfiles]. simpl in H.
+  unfold couples_merge. intros H. inv_bind H. destruct v as [ftab mfiles]. cbn [fst snd] in H.
   inv_bind H. inv_bind H. inv_bind H. inv_bind H. inv_bind H. inv_bind H. inv_bind H.
-  inversion H; subst; clear H. simpl. exists ftab.
+  inversion H; subst; clear H. cbn [cr_pm cr_pf cr_fm cr_fl cr_files cr_people]. exists ftab.
   split; [assumption|]. split; [reflexivity|].
   destruct (mapM_nth _ _ _ Hv0) as (Lfl & Nfl).
   split; [assumption|]. split; [exact Nfl|].
@@ -284,25 +284,21 @@ Proof.
   split; [rewrite G1, F1, repeat_length; reflexivity|].
   split; [apply G3, F3, forallb_repeat; reflexivity|].
   split.
-  { intros a b. rewrite G2, F2, out_get_empty.
-    rewrite (rows_sum_ext _ _ a b (cr_fm r1) (fidx0_tot ftab (cr_files r1))).
-    rewrite (rows_sum_ext _ _ a b (cr_fm r2) (fidx0_tot ftab (cr_files r2))). lia. }
+  { intros a b. rewrite G2, F2, out_get_empty. unfold tot, fidx0. lia. }
   split; [rewrite Q1, P1, repeat_length; reflexivity|].
   split; [apply Q3, P3, forallb_repeat; reflexivity|].
   split.
-  { intros a b. rewrite Q2, P2. change (repeat [] (S (length merged))) with (@repeat row [] (S (length merged))).
-    rewrite out_get_empty.
-    rewrite (rows_sum_ext _ _ a b (cr_pm r1) (pidx0_tot people (cr_people r1) merged)).
-    rewrite (rows_sum_ext _ _ a b (cr_pm r2) (pidx0_tot people (cr_people r2) merged)). lia. }
+  { intros a b. rewrite Q2, P2.
+    rewrite out_get_empty. unfold tot, pidx0. lia. }
   split; [rewrite map_length, E1, D1, repeat_length; reflexivity|].
-  assert (Hnd : Forall (@NoDup Z) v2).
+  assert (Hnd : Forall (@NoDup Z) v1).
   { apply E3, D3. clear. induction (length merged); simpl; constructor; [constructor|assumption]. }
   split.
-  - intros w. rewrite (nthZ_map sort_Z v2 w [] []) by reflexivity. apply sort_Z_ss.
+  - intros w. rewrite (nthZ_map sort_Z v1 w [] []) by reflexivity. apply sort_Z_ss.
     unfold nthZ. destruct (w <? 0); [constructor|].
-    destruct (Nat.lt_ge_cases (Z.to_nat w) (length v2)) as [Hlt|Hge].
+    destruct (Nat.lt_ge_cases (Z.to_nat w) (length v1)) as [Hlt|Hge].
     + rewrite Forall_forall in Hnd. apply Hnd, nth_In, Hlt.
     + rewrite nth_overflow by assumption. constructor.
-  - intros w x. rewrite (nthZ_map sort_Z v2 w [] []) by reflexivity. rewrite sort_Z_in, E2, D2.
+  - intros w x. rewrite (nthZ_map sort_Z v1 w [] []) by reflexivity. rewrite sort_Z_in, E2, D2.
     rewrite nthZ_repeat by exact []. simpl. tauto.
 Qed.
